@@ -55,8 +55,9 @@ int main(int argc, char **argv)
             const long n = in[IN_INT64];
             const bool to = in[IN_METHOD] == Http::METHOD_TRACE || in[IN_METHOD] == Http::METHOD_OPTIONS;
             if (g_add_calls) RP_FAIL("the client's Max-Forwards was copied as is");
-            if (to && n > 0 && !(g_puti_calls == 1 && g_puti_id == MAX_FORWARDS && g_puti_val == n - 1)) RP_FAIL("Max-Forwards %ld not forwarded as %ld", n, n - 1);
+            if (to && n > 0 && !listed(in) && !(g_puti_calls == 1 && g_puti_id == MAX_FORWARDS && g_puti_val == n - 1)) RP_FAIL("Max-Forwards %ld not forwarded as %ld", n, n - 1);
             if (to && n <= 0 && out_total) RP_FAIL("Max-Forwards %ld forwarded", n);
+            if (g_puti_calls && !(g_puti_calls == 1 && g_puti_id == MAX_FORWARDS && n > 0 && g_puti_val == n - 1)) RP_FAIL("emitted Max-Forwards value %ld for n=%ld", g_puti_val, n);
         }
         RP_OK("property-level postconditions hold on this input");
     }
